@@ -2,14 +2,16 @@
    and object nodes (openapi/internal/jsoac: node.go, primitive.go, array.go, array_items.go, object.go,
    object_properties.go, additional_properties.go), and the meaning of its keywords on JSON values.
    `or` over built-in types and rule-sets is modelled on scalar examples (or.go, ast_node.go).
-   Outside the model: type references, key shortcuts, allOf, additionalProperties naming a user type.  No proofs. *)
+   A value written as a type name (`@t`, possibly nullable) and additionalProperties naming a user type are references
+   (ref.go): the converter emits {"$ref": ...}; what the reference means is given by the environment of registered
+   types in Model/OasRef.v.  Outside the model: key shortcuts, allOf, `or` over type names.  No proofs. *)
 From Coq Require Import List ZArith NArith Bool.
 From JS Require Import Base.Res Spec.Decimal Model.Number Model.EnumParse Model.RuleSem Model.OasSem Model.OasLeaf.
 Import ListNotations.
 Local Open Scope Z_scope.
 
 (* additionalProperties as written on an object (absent = false) *)
-Inductive apmode := APFalse | APAny | APType (t : otype) | APNull | APArray | APObject | APFormat (f : bytes).
+Inductive apmode := APFalse | APAny | APType (t : otype) | APNull | APArray | APObject | APFormat (f : bytes) | APRef (name : bytes).
 (* the rule value written as a type name: any, enum and mixed relate to every type and leave the additional properties
    unconstrained; the string formats keep their name (datetime is spelled date-time) *)
 Definition ap_of_name (n : bytes) : option apmode :=
@@ -23,7 +25,7 @@ Definition ap_of_name (n : bytes) : option apmode :=
   else if beq_bytes n [111;98;106;101;99;116]%N then Some APObject
   else if beq_bytes n [101;109;97;105;108]%N || beq_bytes n [117;114;105]%N || beq_bytes n [117;117;105;100]%N || beq_bytes n [100;97;116;101]%N then Some (APFormat n)
   else if beq_bytes n [100;97;116;101;116;105;109;101]%N then Some (APFormat [100;97;116;101;45;116;105;109;101]%N)
-  else None.
+  else match n with 64%N :: name => Some (APRef name) | _ => None end.            (* "@name" *)
 
 (* an alternative of an `or` rule: a built-in scalar type with its rules (a bare name has none; `any`), or the names
    "object" / "array" *)
@@ -34,13 +36,15 @@ Inductive snode :=
 | SLeaf (ex : bytes) (l : leaf)
 | SOr (ex : bytes) (alts : list oralt) (nullable : bool)              (* a scalar example with an `or` rule *)
 | SArr (items : list snode) (mn mx : option Z) (nullable : bool)
-| SObj (members : list (bytes * (bool * snode))) (ap : apmode) (nullable : bool).     (* key, optional, value *)
+| SObj (members : list (bytes * (bool * snode))) (ap : apmode) (nullable : bool)      (* key, optional, value *)
+| SRef (name : bytes) (nullable : bool).                               (* the value is written as a type name: @name *)
 
 Inductive otree :=
 | OLeaf (o : oasx)
 | OAnyOf (alts : list otree) (nullable : bool)
 | OArr (items : list otree) (mn mx : option Z) (nullable : bool)      (* items: {} / the schema / anyOf of the schemas *)
-| OObj (props : list (bytes * otree)) (required : list bytes) (ap : apmode) (nullable : bool).
+| OObj (props : list (bytes * otree)) (required : list bytes) (ap : apmode) (nullable : bool)
+| ORef (name : bytes) (nullable : bool).                 (* {"$ref": "#/components/schemas/name"}, in allOf when nullable *)
 
 Fixpoint to_otree (n : snode) : otree :=
   match n with
@@ -60,6 +64,7 @@ Fixpoint to_otree (n : snode) : otree :=
   | SObj ms ap nu =>
     OObj (map (fun m => (fst m, to_otree (snd (snd m)))) ms)
          (map fst (filter (fun m => negb (fst (snd m))) ms)) ap nu
+  | SRef name nu => ORef name nu
   end.
 
 (* JSON values: scalars as their literal text *)
@@ -71,6 +76,7 @@ Fixpoint example (n : snode) : jval :=
   | SOr ex _ _ => JLit ex
   | SArr items _ _ _ => JArr (map example items)
   | SObj ms _ _ => JObj (map (fun m => (fst m, example (snd (snd m)))) ms)
+  | SRef _ _ => JLit w_null_lit         (* without the registered types a reference has no example: Model/OasRef.v example_e *)
   end.
 
 Fixpoint plookup {A} (k : bytes) (l : list (bytes * A)) : option A :=
@@ -86,6 +92,7 @@ Definition ap_ok (ap : apmode) (v : jval) : Prop :=
   | APArray => match v with JArr _ => True | _ => False end                  (* {"type": "array", "items": {}} *)
   | APObject => v = JObj []                                                  (* an object without properties, none admitted *)
   | APFormat _ => match v with JLit lit => js_type_ok (Some OString) lit = true | _ => False end   (* format is an annotation *)
+  | APRef _ => False                                                          (* no registered types here: Model/OasRef.v *)
   end.
 
 (* validity of a JSON value against the Schema Object (OpenAPI 3.0: nullable admits null next to the rest) *)
